@@ -69,7 +69,11 @@ func c25(c *Ctx) {
 	c.Rule("SAMEVAL/C25.hashes")
 	anc := CallResN("(*"+rdb+".chainFreezer).freezeRange", 0)
 	c.ArgIs("frozen-hash", f, c.Calls(f, rdb+".DeleteBlockWithoutNumber"), "DeleteBlockWithoutNumber", 1, IndexOf(anc, nil), "ancients[i] as returned by freezeRange")
-	c.ArgIs("side-hash", f, delSide[:1], "DeleteBlock(side)", 1, func(v ssa.Value) bool {
+	if len(delSide) == 0 {
+		c.Undecided("side-hash/"+fnName(f), f.Pos(), "no DeleteBlock(side) call found in freeze")
+		delSide = append(delSide, dels...)
+	}
+	c.ArgIs("side-hash", f, delSide[:min(1, len(delSide))], "DeleteBlock(side)", 1, func(v ssa.Value) bool {
 		// element of ReadAllHashes(db, number)
 		return Mentions(CallRes(rdb + ".ReadAllHashes"))(v)
 	}, "a hash listed by ReadAllHashes at that height")
